@@ -21,10 +21,14 @@ CONFIGS = {
     # every ISA extension of x86-64-v3 (SSE4.1, AVX2, BMI2, FMA, …) switched on, so that code paths guarded by __SSE4_1__,
     # __AVX2__, __BMI2__ … are compiled and executed; contraction off so that floating-point results stay those of the plain build
     "isa": ["-O1", "-g1", "-march=x86-64-v3", "-ffp-contract=off"] + SAN,
-    "rel": ["-O2", "-DNDEBUG"],
+    # release builds: -fno-tree-slp-vectorize because g++ 12.2's SLP vectorizer drops the intermediate rounding of a
+    # double -> float -> double conversion chain (covariant_cast<double, covariant_cast<float, array<double3>>> beneath a Morton
+    # layer returned the unrounded doubles at -O2; correct at -O1, with -fno-tree-slp-vectorize, and in every sanitizer build;
+    # no undefined behaviour in the source) -- a toolchain defect, see DESIGN.md 11.4
+    "rel": ["-O2", "-DNDEBUG", "-fno-tree-slp-vectorize"],
     # OpenMP switched on (code under `#ifdef _OPENMP` / omp pragmas is compiled in); run with OMP_NUM_THREADS=4
     "omp": ["-O1", "-g1", "-fopenmp"],
-    "relbmi2": ["-O2", "-DNDEBUG", "-mbmi2"],
+    "relbmi2": ["-O2", "-DNDEBUG", "-mbmi2", "-fno-tree-slp-vectorize"],
     "tsan": ["-O1", "-g1", "-fsanitize=thread"],
     "syntax": ["-fsyntax-only"],
     # a second compiler front end (clang 14 with libstdc++): builtins and template machinery that g++ 12 does not have
